@@ -64,7 +64,8 @@ def build(ch, with_options=True):
     d = HDeck('c05 universes')
     d.add_surface(1, 'px', [-4.0]); d.add_surface(2, 'px', [0.0]); d.add_surface(3, 'px', [4.0])
     d.add_surface(4, 'py', [-4.0]); d.add_surface(5, 'py', [4.0])
-    d.add_surface(21, 'px', [-2.5]); d.add_surface(22, 'py', [0.5]); d.add_surface(23, 'pz', [1.0])
+    # the splitting planes of universe 1 are oblique so that a displacement along any axis is visible
+    d.add_surface(21, 'p', [1.0, 0.0, 0.5, -2.5]); d.add_surface(22, 'p', [0.0, 1.0, -0.5, 0.5]); d.add_surface(23, 'pz', [1.0])
     d.add_surface(24, 'p', [1.0, 1.0, 0.0, 0.5]); d.add_surface(25, 'py', [-1.0])
     # universe 1 may be bounded by facets of a macrobody instead of plain planes (same loci)
     facets = ch.choose('u1-by-facets', [False, True])
